@@ -116,7 +116,14 @@ class SegInterp(Interp):
                 if o is not None and o.info.get('segs') is not None:
                     forms.append((what[3] + ph * what[2], o))
             elif what[0] == 'phi' and w >= 32:
-                forms += [(ph, o) for o in texts]
+                # an integer cursor: an index from the start of the text or from a pointer into it that the function
+                # holds on loop entry (reader->cursor + i)
+                for o in texts:
+                    bases = {Lin(0).key(): Lin(0)}
+                    for v in list(st.env.values()) + [x for k_, x in st.mem.items()]:
+                        if isinstance(v, PtrVal) and v.obj == o.id and len(bases) < 4:
+                            bases.setdefault(v.off.key(), v.off)
+                    forms += [(ph + base, o) for base in bases.values()]
             for (off, o) in forms:
                 for b in seg_bounds(o.info['segs'])[1:]:
                     extra.append(off - b)
@@ -243,12 +250,67 @@ def seg_object(st, segs, name, desc, terminated=False, extra=None):
     return o, total
 
 
+# Fallback when a routine's token loop is not unrolled by a symbolic scenario (e.g. one merged loop that steps over
+# delimiters and tokens alike: its trip count depends on the symbolic run lengths, and the loop-head abstraction cannot
+# tell the tokens apart): the same scenario is decided for a few concrete run lengths instead - every loop then has a
+# trip count decided by constants and is executed without abstraction (bytes stay symbolic).  Weaker (some lengths
+# instead of all), still a necessary condition, and reported under the same instance identity.
+CONCRETE = None          # None, or f(name, lower bound) -> int while a concretised rerun is in progress
+VECTORS = (lambda name, lo: lo + 1,
+           lambda name, lo: lo + (2 if name in ('a', 'n', 'r') else 0),
+           lambda name, lo: lo + (2 if name in ('b', 'm', 'c', 't') else 0))
+BROKEN = []              # forms that were not recognised (raised at the end unless violations are reported)
+
+
 def fresh_len(st, env, name, lo=0, hi=1 << 20):
+    if CONCRETE is not None:
+        v = Lin(CONCRETE(name, lo))
+        env.bind(name, v)
+        return v
     n = st.fresh_int(64, False, name)
     st.cons.add_le(lo, n.u)
     st.cons.add_le(n.u, hi)
     env.bind(name, n.u)
     return n.u
+
+
+def not_unrolled(obs):
+    return any(o['kind'] == 'ghost-loop-invariant' and not o['ok'] for o in obs)
+
+
+def guarded(what, f, *args):
+    """an analysis that gives up inside one scenario (path explosion, unsupported construct) is remembered and raised at
+    the end of run_ext unless violations are reported: the other scenarios are still decided"""
+    try:
+        return f(*args)
+    except AnalysisBroken as e:
+        BROKEN.append('%s: %s' % (what, e))
+        return None
+
+
+def decide_scenario(once, what):
+    """once(peel) -> obligations of one run of the scenario.  Symbolic run lengths first; concrete ones when the token
+    loop was not unrolled"""
+    global CONCRETE
+    obs = guarded(what, once, None)
+    if obs is None:
+        return []
+    if not not_unrolled(obs):
+        return obs
+    out = []
+    for vec in VECTORS:
+        CONCRETE = vec
+        try:
+            o2 = guarded(what, once, 16)
+        finally:
+            CONCRETE = None
+        if o2 is None:
+            continue
+        if not_unrolled(o2):
+            BROKEN.append('%s: the loop that hands out the tokens is not unrolled even for concrete run lengths' % what)
+            continue
+        out += o2
+    return out
 
 
 def fresh_char(st, env, name, ne=(), lo=0, hi=ASCII_HI):
@@ -389,8 +451,9 @@ def run_trim(rep, repo):
         run = Run19(it, [BUF])
         log = TokenLog(run, mod)
         it.call_hook = log.hook
-        run.run(c[0].name, FnSpec(setup=chain(log.setup, buffer_text(make_segs)), post=[dict(name=name, then=then)]))
-        rep.add_absint('R-TRIM-CONTENT', relabel(summarize(it, run), 'igris::trim'))
+        if guarded('igris::trim', run.run, c[0].name, FnSpec(setup=chain(log.setup, buffer_text(make_segs)),
+                                                              post=[dict(name=name, then=then)])) is not None:
+            rep.add_absint('R-TRIM-CONTENT', relabel(summarize(it, run), 'igris::trim'))
         return log
 
     def general(st, env):
@@ -494,16 +557,20 @@ def run_split(rep, repo):
     def scen(label, fname, name, make_segs, then, pre=(), extra_setup=None):
         if ONLY and ONLY not in name:
             return
-        it = SegInterp(mod, externals=ext, opaque=op)
-        it.max_peel = 4
-        it.max_peel_states = 24
-        run = Run19(it, [BUF])
-        log = TokenLog(run, mod)
-        it.call_hook = log.hook
-        setups = [log.setup] + ([extra_setup] if extra_setup else []) + [buffer_text(make_segs)]
-        run.run(fname, FnSpec(setup=chain(*setups), pre=list(pre), post=[dict(name=name, then=then)]))
-        rep.add_absint('R-SPLIT-CONTENT', relabel(summarize(it, run), label))
-        seen[label] = seen.get(label, 0) + log.seen
+
+        def once(peel):
+            it = SegInterp(mod, externals=ext, opaque=op)
+            it.max_peel = peel or 4
+            it.max_peel_states = 24
+            it.ghost_keys = ('ntok',)
+            run = Run19(it, [BUF])
+            log = TokenLog(run, mod)
+            it.call_hook = log.hook
+            setups = [log.setup] + ([extra_setup] if extra_setup else []) + [buffer_text(make_segs)]
+            run.run(fname, FnSpec(setup=chain(*setups), pre=list(pre), post=[dict(name=name, then=then)]))
+            seen[label] = seen.get(label, 0) + log.seen
+            return summarize(it, run)
+        rep.add_absint('R-SPLIT-CONTENT', relabel(decide_scenario(once, label), label))
 
     # ---- split(buffer, char): delimiter d = the parameter; T, U = runs of characters different from d
     f1 = M('split', 3, False)
@@ -625,8 +692,11 @@ class ArgvLog:
             return
         if p.obj == self.run.argobj.get(self.argv_idx):
             if not p.off.is_const() or p.off.c % 8:
-                raise AnalysisBroken('%s: store into argv at a position that is not a constant in the scenario (%r)'
-                                     % (inst.fn.name, p.off))
+                # argc is not a constant here: the token loop was not unrolled (reported as such by the engine's
+                # ghost-loop-invariant obligation; decide_scenario falls back to concrete run lengths)
+                st.ghost['nargv'] = st.ghost['nargv'] + 1
+                st.ghost['badwrite'] = 1
+                return
             k = p.off.c // 8
             if isinstance(v, PtrVal) and v.obj == self.run.textobj:
                 if k < MAXTOK:
@@ -664,23 +734,23 @@ def run_argvc(rep, repo):
     def scen(fname, name, make_segs, then, pre, n_form):
         if ONLY and ONLY not in name:
             return
-        it = SegInterp(mod, externals=ext)
-        it.max_peel = 4
-        it.max_peel_states = 24
-        it.ghost_keys = ('nargv', 'nnul')
-        run = Run19(it, [])
-        if n_form:
-            log = ArgvLog(run, 2)
-            setup = chain(log.setup, sized_params((2, 3), elem=8), text_arg(0, make_segs, False, 1))
-        else:
-            log = ArgvLog(run, 1)
-            setup = chain(log.setup, sized_params((1, 2), elem=8), text_arg(0, make_segs, True))
-        it.store_hook = log.hook
-        run.run(fname, FnSpec(setup=setup, pre=list(pre), post=[dict(name=name, then=then + ['ghost_badwrite == 0'])]))
-        obs = summarize(it, run)
-        if any(o['kind'] == 'ghost-loop-invariant' for o in obs):
-            raise AnalysisBroken('%s: the token loop is not unrolled by the scenario "%s"' % (fname, name))
-        rep.add_absint('R-ARGVC-CONTENT', relabel(obs, fname))
+
+        def once(peel):
+            it = SegInterp(mod, externals=ext)
+            it.max_peel = peel or 4
+            it.max_peel_states = 24
+            it.ghost_keys = ('nargv', 'nnul')
+            run = Run19(it, [])
+            if n_form:
+                log = ArgvLog(run, 2)
+                setup = chain(log.setup, sized_params((2, 3), elem=8), text_arg(0, make_segs, False, 1))
+            else:
+                log = ArgvLog(run, 1)
+                setup = chain(log.setup, sized_params((1, 2), elem=8), text_arg(0, make_segs, True))
+            it.store_hook = log.hook
+            run.run(fname, FnSpec(setup=setup, pre=list(pre), post=[dict(name=name, then=then + ['ghost_badwrite == 0'])]))
+            return summarize(it, run)
+        rep.add_absint('R-ARGVC-CONTENT', relabel(decide_scenario(once, fname), fname))
 
     def blank(st, env):
         return [seg_in(fresh_len(st, env, 'a'), WS4, 'ws')]
@@ -920,8 +990,9 @@ def run_memmem(rep, repo):
             setup(run_, st, env, pnames, args, sps)
             box['needle'] = run_.argobj[2]
             box['slen'] = env.names['arg3']
-        run.run(F, FnSpec(setup=setup2, pre=lim + list(pre), post=[dict(name=name, when=when, then=then)]))
-        rep.add_absint('R-MEMMEM-CONTENT', relabel(summarize(it, run), F))
+        if guarded(F, run.run, F, FnSpec(setup=setup2, pre=lim + list(pre),
+                                         post=[dict(name=name, when=when, then=then)])) is not None:
+            rep.add_absint('R-MEMMEM-CONTENT', relabel(summarize(it, run), F))
 
     def texts(hay, needle):
         def setup(run, st, env, pnames, args, sps):
@@ -1001,8 +1072,8 @@ def run_compare_node(rep, repo):
                                'b', 'path b', terminated=True)
             args[0], args[1] = PtrVal(ao.id, Lin(0)), PtrVal(bo.id, Lin(0))
             run_.argobj[0], run_.argobj[1] = ao.id, bo.id
-        run.run(fname, FnSpec(setup=setup, post=[dict(name=name, then=then)]))
-        rep.add_absint('R-PATHCMP-CONTENT', relabel(summarize(it, run), 'path_compare_node'))
+        if guarded('path_compare_node', run.run, fname, FnSpec(setup=setup, post=[dict(name=name, then=then)])) is not None:
+            rep.add_absint('R-PATHCMP-CONTENT', relabel(summarize(it, run), 'path_compare_node'))
     E = {'slash': "'/'", 'nul': 'end of string'}
     scen('a = c^k x.., b = c^k y.. with x < y (both inside their nodes): a sorts first', 'ord', 'ord', 'lt', ['ret == -1'])
     scen('a = c^k x.., b = c^k y.. with x > y (both inside their nodes): b sorts first', 'ord', 'ord', 'gt', ['ret == 1'])
@@ -1063,8 +1134,9 @@ def run_creader(rep, repo):
                     st.ghost['token_off'] = v.off
                     st.ghost['token_in_buf'] = 1 if v.obj == run.textobj else 0
             it.store_hook = hook
-        run.run(F(label), FnSpec(setup=chain(*setups), post=[dict(name=name, then=then + frame)]))
-        rep.add_absint('R-CREADER-CONTENT', relabel(summarize(it, run), label))
+        fn = F(label)
+        if guarded(label, run.run, fn, FnSpec(setup=chain(*setups), post=[dict(name=name, then=then + frame)])) is not None:
+            rep.add_absint('R-CREADER-CONTENT', relabel(summarize(it, run), label))
 
     # ---- skipws / skip
     def ws_then_x(st, env):
@@ -1126,15 +1198,46 @@ def run_creader(rep, repo):
 
 
 def run_ext(rep, repo, tier):
+    """called at the end of c19.run: adds the content rules to the same report.  An analysis-broken condition of this
+    extension must not hide violations already found (by c19's own rules or by other scenarios): it is raised only when
+    nothing fails, otherwise printed as a note"""
+    del BROKEN[:]
+    try:
+        run_all(rep, repo, tier)
+        if BROKEN:
+            raise AnalysisBroken('; '.join(sorted(set(BROKEN)))[:2000])
+    except AnalysisBroken as e:
+        if not any(not i['ok'] for i in rep.instances):
+            raise
+        print('NOTE property=%s content rules: %s' % (rep.pid, e))
+
+
+def run_all(rep, repo, tier):
+    rep.explanation += (
+        ' CONTENT (checks/c19_content.py): the routines are additionally interpreted over a segmented content model of the '
+        'read-only text - a sequence of runs of symbolic lengths whose bytes belong to a class (one of given values / different '
+        'from given values / copy of another text), one symbol per position, a byte load at a symbolic offset splits on the run '
+        'it lies in.  Decided for ALL run lengths: trim returns exactly [first non-space, last non-space] (white space = '
+        'SP, LF, CR, TAB; blank text gives the empty string); split (char and delimiter-set forms) and split_cmdargs hand out '
+        'exactly the maximal delimiter-free runs, in order, for texts with 0, 1 and 2 tokens and any amount of leading, '
+        'separating and trailing delimiters (quotes: the token is the text between the quotes, an unclosed quote runs to the '
+        'end); argvc_internal_split(_n) store exactly the token starts into argv, write a NUL exactly over the first white-space '
+        'character behind a token, respect argcmax and stop at a NUL; a non-NULL result of igris_memmem starts with the '
+        'first and ends with the last needle byte, and for haystacks x^a needle any^t with x != needle[0] the result is the '
+        'occurrence at a (none for x^h); path_compare_node is the three-way comparison of the nodes (common part of any '
+        'length, then the first differing character or the end of a node decides; 0 only when both nodes end together); '
+        'creader_skip(ws) skips exactly the leading run of the given symbols; creader_readline returns the text up to LF / NUL / '
+        'end without trailing CRs and consumes it.  Not decided: texts with three or more tokens (the loop is the same), '
+        'characters >= 0x80, join as the inverse of split, replace contents.')
+    rep.assumptions += ['content scenarios range over 7-bit characters (signed and unsigned char agree)',
+                        'memcmp == 0 is used as: first and last bytes of the two ranges are equal; it is 0 when the first range '
+                        'is the scenario\'s copy of the second']
     run_trim(rep, repo)
     run_split(rep, repo)
     run_argvc(rep, repo)
     run_memmem(rep, repo)
     run_compare_node(rep, repo)
     run_creader(rep, repo)
-    rep.floor('R-TRIM-CONTENT:post', 3)
-    rep.floor('R-SPLIT-CONTENT:post', 20)
-    rep.floor('R-ARGVC-CONTENT:post', 30)
-    rep.floor('R-MEMMEM-CONTENT:post', 6)
-    rep.floor('R-PATHCMP-CONTENT:post', 10)
-    rep.floor('R-CREADER-CONTENT:post', 30)
+    for rule, n in (('R-TRIM-CONTENT:post', 8), ('R-SPLIT-CONTENT:post', 30), ('R-ARGVC-CONTENT:post', 50),
+                    ('R-MEMMEM-CONTENT:post', 8), ('R-PATHCMP-CONTENT:post', 10), ('R-CREADER-CONTENT:post', 35)):
+        rep.floor(rule, n)
